@@ -728,6 +728,9 @@ Proof.
   nav_step (sdir ++ [sname]) g_getnode tg_getnode gr_getnode o2 Hw2 o3 x3 Hw3 Et3.
   try rewrite Et3 in Hnd. cbn [snd] in Hnd.
   destruct x3 as [| | | | |nd|]; try (cbn [fst snd]; split; [exact Hw3|split; reflexivity]).
+  cbn [f_mv_self flags_off negb andb].
+  destruct (is_dirnode nd && prefixb (sdir ++ [sname]) ddir);
+    [cbn [fst snd]; split; [exact Hw3|split; reflexivity]|].
   nav_step (ddir ++ [dname]) g_kind tg_kind gr_kind o3 Hw3 o4 x4 Hw4 Et4.
   set (kind := match x4 with RStat isd _ _ _ => Some isd | _ => None end).
   destruct (match kind with Some true => (ddir ++ [dname], sname) | _ => (ddir, dname) end) as [fdir fname].
